@@ -81,12 +81,6 @@ func genC17Arg(t *rapid.T, root interface{}) c17Arg {
 		}
 		steps = append(steps, s)
 	}
-	for i := range steps {
-		// (.a.absent, with the context as the base, is left open: a field node, not a chain)
-		if a.Base == "dot" && steps[i].Name == "absentKey" && steps[i].Spell == "dot" {
-			steps[i].Spell = "bracket"
-		}
-	}
 	a.Steps = steps
 	return a
 }
